@@ -28,13 +28,39 @@ RULE = (
     "fault set)."
 )
 ASSUMPTIONS = [
-    "the fault is an exception raised by the caller's check_interrupt callback (any Exception subclass)",
+    "the fault is an exception raised by the caller's check_interrupt callback (any Exception subclass; drawn from six "
+    "families: plain, RuntimeError, ValueError, OSError, KeyError, TypeError)",
     "in pooled mode the invocation index is the order in which the callback happens to be consulted",
 ]
 
 
 class Interrupt(Exception):
     pass
+
+
+# the caller's exception may belong to any family (applications often root theirs at RuntimeError or OSError): a
+# library that catches one of these families around its pool for reasons of its own must not swallow the interrupt
+class InterruptRuntime(Interrupt, RuntimeError):
+    pass
+
+
+class InterruptValue(Interrupt, ValueError):
+    pass
+
+
+class InterruptOS(Interrupt, OSError):
+    pass
+
+
+class InterruptKey(Interrupt, KeyError):
+    pass
+
+
+class InterruptType(Interrupt, TypeError):
+    pass
+
+
+EXC_CLASSES = [Interrupt, InterruptRuntime, InterruptValue, InterruptOS, InterruptKey, InterruptType]
 
 
 @st.composite
@@ -63,6 +89,7 @@ def cases(draw, tier, mode):
         case["schedule"] = {"kind": "preempt", "prio": draw(st.permutations(list(range(8)))),
                             "points": [list(p) for p in pts]}
     case["subsets"] = draw(st.lists(st.lists(st.integers(0, 9), unique=True, min_size=2, max_size=5), max_size=2))
+    case["exc"] = draw(st.integers(0, 5))  # family of the callback's exception
     return case
 
 
@@ -83,7 +110,7 @@ def run_one(case, fresh, k, faults, reference, rec):
         with lock:
             calls[0] += 1
         if i in faults:
-            e = Interrupt(i)
+            e = EXC_CLASSES[case.get("exc", 0) % len(EXC_CLASSES)](i)
             with lock:
                 raised.append(e)
             raise e
